@@ -354,7 +354,11 @@ class Engine(Exec):
         mods = c.modifies
         arr_params = [p for p in params if isinstance(env.get(p), Arr)]
         if mods is None:
-            mods = arr_params
+            if target is not None and target[2] is not None:
+                from .verify import default_modifies
+                mods = default_modifies(target[2], c)
+            else:
+                mods = arr_params
         for p in mods:
             a = env.get(p)
             if isinstance(a, Arr):
@@ -731,11 +735,29 @@ class Engine(Exec):
                 if selfobj is not None:
                     params = params[1:]
                 mods = cc.modifies if cc is not None else None
+                if cc is not None and mods is None:
+                    from .verify import default_modifies
+                    mods = default_modifies(fnode, cc)
+                elif cc is None:
+                    mods = self.syntactic_modifies(mod, fnode)
             for k, a in enumerate(c.args):
                 if isinstance(a, ast.Name) and a.id in st.env and isinstance(st.env[a.id], Arr):
                     if mods is None or (k < len(params) and params[k] in mods):
                         arr_objs.append(st.env[a.id])
         return names, arr_objs
+
+    def syntactic_modifies(self, mod, fnode, depth=0):
+        """Parameters of an inlined callee that its body may write (conservative syntactic scan)."""
+        params = [p.arg for p in fnode.args.args]
+        names, arrs, calls = assigned_names(fnode.body)
+        out = set(a for a in arrs if a in params)
+        if calls:
+            # any array handed on to another call is assumed written
+            for c in calls:
+                for a in c.args:
+                    if isinstance(a, ast.Name) and a.id in params:
+                        out.add(a.id)
+        return list(out)
 
     def do_havoc(self, st, names, arr_objs, keep=()):
         for n in names:
